@@ -22,6 +22,10 @@ type seqRun struct {
 
 	dead bool // a head wait was inconclusive: stop the case
 
+	// nextOff: while operations are planned ahead (concurrent phases) the "next"
+	// template continues the run it has planned so far for the sender
+	nextOff map[common.Address]uint64
+
 	accepted, replaced, headAffected, reinjected, limitDrops int
 }
 
@@ -269,6 +273,12 @@ func (q *seqRun) genTxFrom(r *fw.Rand, from common.Address, tmpl string) (*types
 	}
 	switch tmpl {
 	case "next":
+		if q.nextOff != nil {
+			nonce += q.nextOff[from]
+			if r.Chance(2, 3) {
+				q.nextOff[from]++
+			}
+		}
 	case "gap":
 		nonce = next + 1 + uint64(r.Intn(3))
 		if len(que) > 0 && r.Bool() {
@@ -613,9 +623,14 @@ func (u *universe) checkReorg(before, after *snap, oldHead, x *types.Block, subm
 				continue
 			}
 		}
-		if _, in := after.All[tx.Hash()]; in {
+		if got, _ := slotTx(after, from, tx.Nonce()); got != nil && got.Hash() == tx.Hash() {
 			c.Count("reorg_tx_pooled_again")
 			demanded++
+			continue
+		}
+		if _, in := after.All[tx.Hash()]; in {
+			// in the lookup index but in neither list: that is the index clause's business
+			c.Count("reorg_tx_only_in_lookup_index")
 			continue
 		}
 		if holder, _ := slotTx(after, from, tx.Nonce()); holder != nil {
@@ -739,7 +754,7 @@ type seqInput struct {
 var scenarios = []string{"bump_ladder", "drain", "gas_cap", "reorg_full", "reorg_partial_price", "reorg_partial_funds", "spam_pending", "spam_queue", "threshold_demote", "pool_full", "random", "random"}
 
 func runSeq(c *fw.Ctx) {
-	n := c.Pick(36, 1500)
+	n := c.Pick(36, 900)
 	for i := 0; i < n; i++ {
 		r := c.Rand("seq", fmt.Sprint(i))
 		sc := scenarios[(i+c.Batch)%len(scenarios)]
